@@ -451,7 +451,7 @@ const PROBE: [&[(f64, f64, f64, f64, i64, i64)]; 4] = [
     &[(100.0, 100.0, 0.5, 80.0, 900, 5), (600.0, 400.0, 1.5, 40.0, 20, 0)],
     &[(112.0, 105.0, 0.5, 80.0, 900, 5), (602.0, 401.0, 1.5, 40.0, 20, 0)],
     &[(136.0, 105.0, 0.5, 80.0, 900, 5), (603.0, 402.0, 1.5, 40.0, 20, 0)],
-    &[(137.0, 106.0, 0.5, 80.0, 900, 5), (604.0, 402.0, 1.5, 40.0, 1, 0), (614.0, 406.0, 1.5, 40.0, 60, 0)],
+    &[(137.0, 106.0, 0.5, 80.0, 900, 5), (604.0, 402.0, 1.5, 40.0, 200, 0), (609.0, 404.0, 1.5, 40.0, 60, 0)],
 ];
 
 fn probe(t: &mut Tk) -> Value {
@@ -482,6 +482,27 @@ fn probe(t: &mut Tk) -> Value {
     t.skip(PROBE_SCENE, 1);
     let idle = t.idle(PROBE_SCENE);
     out.push(sorted_by_id(idle.iter().map(|x| prec(x, &mut names)).collect()));
+    // let the probe's tracks expire and read them back as wasted tracks: the histories of a MOVING object
+    t.skip(PROBE_SCENE, 40);
+    let view = |scene: u64, ep: usize, len: usize, ob: &Universal2DBox, pb: &Universal2DBox, obs: &[Universal2DBox], pbs: &[Universal2DBox]| {
+        json!({"scene": scene, "ep": ep, "len": len, "obs": box6(ob), "pred": box6(pb),
+               "obs_boxes": obs.iter().map(box6).collect::<Vec<_>>(), "pred_boxes": pbs.iter().map(box6).collect::<Vec<_>>()})
+    };
+    let mut ws: Vec<Value> = match &mut t.t {
+        Tr::Sort(x) => x.wasted().into_iter().map(WastedSortTrack::from).filter(|w| w.scene_id == PROBE_SCENE)
+            .map(|w| view(w.scene_id, w.epoch, w.length, &w.observed_bbox, &w.predicted_bbox, &w.observed_boxes, &w.predicted_boxes)).collect(),
+        Tr::BSort(x) => x.wasted().into_iter().map(WastedSortTrack::from).filter(|w| w.scene_id == PROBE_SCENE)
+            .map(|w| view(w.scene_id, w.epoch, w.length, &w.observed_bbox, &w.predicted_bbox, &w.observed_boxes, &w.predicted_boxes)).collect(),
+        Tr::Vis(x) => x.wasted().into_iter().map(WastedVisualSortTrack::from).filter(|w| w.scene_id == PROBE_SCENE)
+            .map(|w| view(w.scene_id, w.epoch, w.length, &w.observed_bbox, &w.predicted_bbox, &w.observed_boxes, &w.predicted_boxes)).collect(),
+        Tr::BVis(x) => x.wasted().into_iter().map(WastedVisualSortTrack::from).filter(|w| w.scene_id == PROBE_SCENE)
+            .map(|w| view(w.scene_id, w.epoch, w.length, &w.observed_bbox, &w.predicted_bbox, &w.observed_boxes, &w.predicted_boxes)).collect(),
+    };
+    ws.sort_by(|a, b| {
+        let k = |r: &Value| (r["obs"][0].as_f64().unwrap_or(0.0), r["obs"][1].as_f64().unwrap_or(0.0), r["len"].as_f64().unwrap_or(0.0));
+        k(a).partial_cmp(&k(b)).unwrap()
+    });
+    out.push(json!(ws));
     json!(out)
 }
 
